@@ -472,7 +472,7 @@ def main(argv=None):
     n_cfg = args.configs or int(os.environ.get('VERIF_CONFIGS', 0)) or dict(
         quick=10, thorough=64)[tier]
     n_chain = args.chains or int(os.environ.get('VERIF_RUNS', 0)) or dict(
-        quick=56, thorough=1500)[tier]
+        quick=44, thorough=1500)[tier]
     budget = float(os.environ.get('VERIF_BUDGET_S', 0)) or dict(
         quick=100, thorough=1400)[tier]
     verdict = report.Verdict(PROP)
@@ -485,6 +485,7 @@ def main(argv=None):
         refs = orchestrator.run_parallel(
             build_reference, [(tier, seed, i, root) for i in range(n_cfg)],
             workers=workers, hard_wall=HARD_WALL)
+        t_refs = time.time() - t0
         tasks = []
         for ref in refs:
             if ref is None:
@@ -533,15 +534,17 @@ def main(argv=None):
                                 dict(boundary=f)))
             else:
                 stats['benign_state_differences'] += 1
+        t_l1 = time.time() - t0
         # ---- layers 2 and 3 ------------------------------------------------
         left = max(30.0, budget - (time.time() - t0))
         chains = orchestrator.run_parallel(
             run_chain, [(tier, seed, i) for i in range(n_chain)],
             workers=workers, hard_wall=HARD_WALL, budget_s=left)
+        t_l23 = time.time() - t0
         # ---- layer 4 -----------------------------------------------------
         l4_infos, l4_kills, l4_res = layer4(
             tier, seed, root, workers,
-            dict(quick=3, thorough=16)[tier], dict(quick=10, thorough=24)[tier])
+            dict(quick=2, thorough=16)[tier], dict(quick=8, thorough=24)[tier])
         stats['file_op_kills'] = 0
         stats['file_op_kill_outcomes'] = {}
         for (info, n, torn, _), r in zip(l4_kills, l4_res):
@@ -671,6 +674,9 @@ def main(argv=None):
                    stats['boundaries_plain'], stats['boundaries_kill'],
                    status, wall))
     report.say('  faults fired: {}'.format(faults))
+    report.say('  phases: references {:.0f} s, boundaries until {:.0f} s, '
+               'chains until {:.0f} s, kills in writes until {:.0f} s'.format(
+                   t_refs, t_l1, t_l23, wall))
     if verdict.violations:
         return env.EXIT_VIOLATION
     if stats['boundaries_plain'] + len(nontriv) < 2:
